@@ -642,13 +642,12 @@ fn transport(setup: &Setup, producer: Producer, mutation: Mutation, consumer: Co
     } else if truncated.is_some() {
         Expect::Err("truncated inside the top-level value".into())
     } else {
-        match ref_apply(spec, &target_model, &doc) {
-            Expect::Ok(m) if consumer == Consumer::Serde(Entry::Value) && doc.has_duplicate_keys() => {
-                // a value tree cannot hold duplicates: first occurrence is dropped by the tree builder itself
-                let _ = m;
-                Expect::Either("duplicate keys are not representable in a value tree".into())
-            }
-            e => e,
+        if consumer == Consumer::Serde(Entry::Value) && doc.has_duplicate_keys() {
+            // a value tree cannot hold duplicates (the tree builder itself keeps one occurrence), so the
+            // engine never sees the document the reference reader judges: no expectation either way
+            Expect::Either("duplicate keys are not representable in a value tree".into())
+        } else {
+            ref_apply(spec, &target_model, &doc)
         }
     };
 
@@ -774,7 +773,7 @@ fn run(ctx: &RunCtx) -> Result<(), Violation> {
     if scenario > 0 {
         return directed(scenario, ctx);
     }
-    let mut spec = wgen::gen_scheme(&[2, 3, 4, 4, 1, 1], chance(2, 3, "with_lists"), false);
+    let mut spec = wgen::gen_scheme(&[2, 3, 4, 4, 1, 1, 1], chance(2, 3, "with_lists"), false);
     if spec.family == "lists_only" && spec.lists.is_empty() {
         spec.lists.push((MType::Int, ListKind::Set));
     }
